@@ -20,6 +20,9 @@ CORPUS = [
      ("selany",), ("envdel", 0), ("create", 1, 2)],
     [("create", 0, 1), ("envadd", 1, False), ("select", L.KEYNAME[0]), ("envdel", 1)],
     [("create", 0, 1), ("envadd", 1, False), ("create", 0, 2), ("envdel", 0), ("envdel", 1), ("create", 0, 3)],
+    # two profiles of one environment whose names differ only in case; the user selects the one created later
+    [("oidc", 1, L.NAMES.index("A@x.io"), 1), ("oidc", 2, L.NAMES.index("a@x.io"), 1), ("select", L.NAMES.index("a@x.io")),
+     ("select", L.NAMES.index("A@x.io")), ("select", L.NAMES.index("a@x.io"))],
 ]
 
 
